@@ -65,17 +65,17 @@ const char* excluded(unsigned form, const std::string& xsl, const std::string& x
     if (filtersOff()) return 0;
     // F-C03-assert-clone-cdata: a CDATA section in a Xerces-DOM backed source reaches XSLTEngineImpl::cloneToResultTree
     // with nodeType TEXT_NODE while the node says CDATA_SECTION_NODE (Debug-only assertion)
-    if (form == 2 && contains(xml, "<![CDATA[")) return "excluded_by_filter:F-C03-assert-clone-cdata";
+    if (filterActive("F-C03-assert-clone-cdata") && (form == 2 && contains(xml, "<![CDATA["))) return "excluded_by_filter:F-C03-assert-clone-cdata";
     // F-C03-xerces-dom-xmlversion: parseSource(useXercesDOM) lets xercesc::DOMException escape for <?xml version="1.5"?>
-    if (form == 2 && hasOddXmlVersion(xml)) return "excluded_by_filter:F-C03-xerces-dom-xmlversion";
+    if (filterActive("F-C03-xerces-dom-xmlversion") && (form == 2 && hasOddXmlVersion(xml))) return "excluded_by_filter:F-C03-xerces-dom-xmlversion";
     // F-C03-icu-converter-name: an output encoding name that is not plain ASCII overflows a stack buffer in ICU's ucnv_openU
-    if (hasNonAsciiEncodingAttribute(xsl)) return "excluded_by_filter:F-C03-icu-converter-name";
+    if (filterActive("F-C03-icu-converter-name") && (hasNonAsciiEncodingAttribute(xsl))) return "excluded_by_filter:F-C03-icu-converter-name";
     // F-C03-exslt-padding-nan: str:padding() converts its length argument to an unsigned integer without a range check
-    if (contains(xsl, "padding(")) return "excluded_by_filter:F-C03-exslt-padding-nan";
+    if (filterActive("F-C03-exslt-padding-nan") && (contains(xsl, "padding("))) return "excluded_by_filter:F-C03-exslt-padding-nan";
     // F-C03-assert-nametest-empty-local (Debug-only assertion): xsl:strip-space / preserve-space elements="p:"
-    if (hasNameTestEndingInColon(xsl)) return "excluded_by_filter:F-C03-assert-nametest-empty-local";
+    if (filterActive("F-C03-assert-nametest-empty-local") && (hasNameTestEndingInColon(xsl))) return "excluded_by_filter:F-C03-assert-nametest-empty-local";
     // F-C03-assert-indtd (Debug-only assertion): element content reported while the internal DTD subset is still open
-    if (hasUnclosedInternalSubset(xml)) return "excluded_by_filter:F-C03-assert-indtd";
+    if (filterActive("F-C03-assert-indtd") && (hasUnclosedInternalSubset(xml))) return "excluded_by_filter:F-C03-assert-indtd";
     return 0;
 }
 
